@@ -202,7 +202,7 @@ fn run_case(seed: u64, idx: u64) -> CaseOut {
                     history.push("unset_length".into());
                 }
                 6 => {
-                    msg_raw = if rng.chance(1, 3) { format!("mes\tsage {}", rng.range(0, 999)) } else { format!("message {}", rng.range(0, 999)) };
+                    msg_raw = match rng.below(4) { 0 => format!("mes\tsage {}", rng.range(0, 999)), 1 => format!("  indented {}", rng.range(0, 999)), _ => format!("message {}", rng.range(0, 999)) };
                     pb.set_message(msg_raw.clone());
                     history.push(format!("set_message({msg_raw:?})"));
                 }
